@@ -1,5 +1,6 @@
 import XV.Driver.Util
 import XV.Model.ByteCodec
+import XV.Model.Recognizer
 namespace XV.Driver.Codec
 open XV.Driver XV.Model.ByteCodec XV.Gen.ByteTables
 
@@ -51,6 +52,18 @@ def handle (line : String) : String :=
           | some r => showC false r
           | none => "bad-op"
       | _, _ => "bad-op"
+  | ["P", bs] => match parseHexList bs with
+      | some bs => (XV.Model.Recognizer.basicEncodingProbe bs).name
+      | none => "bad-op"
+  | ["GC", enc, cp] => match parseHex cp with
+      | some c => match enc with
+          | "ISO-8859-1" => if c < 256 then "1" else "0"
+          | "US-ASCII" => if c < 128 then "1" else "0"
+          | "UTF-16LE" | "UTF-16BE" | "UCS-4LE" | "UCS-4BE" => "1"
+          | _ => match tableOf enc with
+              | some t => if canTranscodeTo t c then "1" else "0"
+              | none => "bad-op"
+      | none => "bad-op"
   | _ => "bad-op"
 
 end XV.Driver.Codec
